@@ -148,3 +148,23 @@ Qed.
 
 Lemma uvarint_val bs v n : uvarint bs = UvOk v n -> v < two64.
 Proof. unfold uvarint. intro H. eapply uvarint_aux_val in H; eauto; try reflexivity; lia. Qed.
+
+(** kv.sizeVarint: [for { n++; x >>= 7; if x == 0 { break } }] *)
+Fixpoint size_varint_go (fuel : nat) (x : N) : N :=
+  match fuel with
+  | O => 1
+  | S f => if x / 128 =? 0 then 1 else 1 + size_varint_go f (x / 128)
+  end.
+
+Lemma size_varint_go_put fuel : forall x, size_varint_go fuel x = blen (put_uvarint_aux fuel x).
+Proof.
+  induction fuel as [|f IH]; intro x; cbn [size_varint_go put_uvarint_aux].
+  - now rewrite blen_cons, blen_nil.
+  - destruct (x <? 128) eqn:E.
+    + replace (x / 128 =? 0) with true by (symmetry; apply N.eqb_eq; zdm). now rewrite blen_cons, blen_nil.
+    + replace (x / 128 =? 0) with false by (symmetry; apply N.eqb_neq; zdm). rewrite blen_cons, IH. reflexivity.
+Qed.
+
+(** the loop runs at most 10 times for a uint64 *)
+Lemma size_varint_law x : size_varint_go 9 x = blen (put_uvarint x).
+Proof. apply size_varint_go_put. Qed.
